@@ -2,11 +2,12 @@ package objstl
 
 import (
 	"bufio"
-	"bytes"
 	"encoding/json"
 	"fmt"
+	"math"
 	"math/rand"
 	"os"
+	"path/filepath"
 
 	"github.com/EliCDavis/polyform/formats/stl"
 	"github.com/EliCDavis/polyform/modeling"
@@ -27,13 +28,20 @@ type GRec struct {
 	A int     `json:"a"`
 }
 
+// StlSeeded: a mesh / record list drawn by the seeded recorder. The fields
+// after NTris (round 2) fix the shape instead of drawing it; their zero value
+// is "drawn from the seed".
 type StlSeeded struct {
-	Seed  int64 `json:"seed"`
-	NTris int   `json:"ntris"`
+	Seed   int64 `json:"seed"`
+	NTris  int   `json:"ntris"`
+	NVerts int   `json:"nverts"` // > 0: exactly this many vertices, random welded indices; -1: unwelded (3 per triangle)
+	Nrm    int   `json:"nrm"`    // 1: with corner normals, 2: without
+	NExp   int   `json:"nexp"`   // corner normals are lattice vectors times 2^nexp (magnitude range)
+	Edge   int   `json:"edge"`   // 1: boundary float values among the positions, 2: also NaN / Inf
 }
 
 type StlCase struct {
-	K      string     `json:"k"` // "sw" | "sr"
+	K      string     `json:"k"` // "sw" | "sr" | "sb"
 	Tag    string     `json:"tag"`
 	Enc    string     `json:"enc"`
 	Q      int        `json:"q"`
@@ -41,6 +49,9 @@ type StlCase struct {
 	Mesh   *StlAMesh  `json:"mesh,omitempty"`
 	Gen    []GRec     `json:"gen,omitempty"`
 	Seeded *StlSeeded `json:"seeded,omitempty"`
+	Cid    *int       `json:"cid,omitempty"` // the case's number in the run it was recorded in (replays keep it)
+	Io     int        `json:"io"`            // reader variant (iomodes.go)
+	Wio    int        `json:"wio"`           // writer variant
 }
 
 // ---- projections -----------------------------------------------------------
@@ -57,7 +68,9 @@ type StlObs struct {
 	Nrm [][]int `json:"nrm"` // rounded to 1/4096
 }
 
-func stlSrc(m modeling.Mesh, enc Enc, qn int) StlSrc {
+// nexp: the case built its corner normals as lattice vectors times 2^nexp
+// (exact); they are logged in lattice units.
+func stlSrc(m modeling.Mesh, enc Enc, qn int, nexp int) StlSrc {
 	p := StlSrc{Idx: projIdx(m), Pos: [][][]int{}, Nrm: [][]int{}}
 	if m.HasFloat3Attribute(modeling.PositionAttribute) {
 		a := m.Float3Attribute(modeling.PositionAttribute)
@@ -71,7 +84,7 @@ func stlSrc(m modeling.Mesh, enc Enc, qn int) StlSrc {
 		a := m.Float3Attribute(modeling.NormalAttribute)
 		for i := 0; i < a.Len(); i++ {
 			v := a.At(i)
-			p.Nrm = append(p.Nrm, ne.ObsVec(v.X(), v.Y(), v.Z()))
+			p.Nrm = append(p.Nrm, ne.ObsVec(math.Ldexp(v.X(), -nexp), math.Ldexp(v.Y(), -nexp), math.Ldexp(v.Z(), -nexp)))
 		}
 	}
 	return p
@@ -119,7 +132,7 @@ func stlBuildLattice(a StlAMesh, q, qn int) modeling.Mesh {
 
 // stlBuildSeeded: arbitrary finite float64 positions, random (welded) index
 // pattern, corner normals on the 1/qn lattice with positive z (their sum
-// never vanishes, so the normalised mean is defined).
+// never vanishes, so the normalised mean is defined), scaled by 2^NExp.
 func stlBuildSeeded(s StlSeeded, qn int) modeling.Mesh {
 	r := rand.New(rand.NewSource(s.Seed))
 	nt := s.NTris
@@ -127,11 +140,16 @@ func stlBuildSeeded(s StlSeeded, qn int) modeling.Mesh {
 	if nt > 0 && r.Intn(2) == 0 {
 		nv = 3 + r.Intn(2*nt+1)
 	}
+	if s.NVerts > 0 {
+		nv = s.NVerts
+	}
 	idx := make([]int, 3*nt)
 	for k := range idx {
-		idx[k] = r.Intn(nv)
+		if nv > 0 {
+			idx[k] = r.Intn(nv)
+		}
 	}
-	if r.Intn(3) == 0 { // unwelded identity
+	if (r.Intn(3) == 0 && s.NVerts == 0) || s.NVerts < 0 { // unwelded identity
 		nv = 3 * nt
 		for k := range idx {
 			idx[k] = k
@@ -139,14 +157,25 @@ func stlBuildSeeded(s StlSeeded, qn int) modeling.Mesh {
 	}
 	m := modeling.NewTriangleMesh(idx)
 	pos := make([]vector3.Float64, nv)
+	real := func() float64 {
+		if s.Edge > 0 && r.Intn(3) == 0 {
+			return edgeReal(r, s.Edge > 1)
+		}
+		return randomReal(r)
+	}
 	for k := range pos {
-		pos[k] = vector3.New(randomReal(r), randomReal(r), randomReal(r))
+		pos[k] = vector3.New(real(), real(), real())
 	}
 	m = m.SetFloat3Attribute(modeling.PositionAttribute, pos)
-	if r.Intn(3) > 0 {
+	withN := r.Intn(3) > 0
+	if s.Nrm != 0 {
+		withN = s.Nrm == 1
+	}
+	if withN {
+		sc := math.Ldexp(1/float64(qn), s.NExp)
 		n := make([]vector3.Float64, nv)
 		for k := range n {
-			n[k] = vector3.New(float64(r.Intn(17)-8)/float64(qn), float64(r.Intn(17)-8)/float64(qn), float64(1+r.Intn(8))/float64(qn))
+			n[k] = vector3.New(float64(r.Intn(17)-8)*sc, float64(r.Intn(17)-8)*sc, float64(1+r.Intn(8))*sc)
 		}
 		m = m.SetFloat3Attribute(modeling.NormalAttribute, n)
 	}
@@ -175,6 +204,9 @@ func stlSeededRecs(s StlSeeded) ([]GRec, []FRec) {
 			var bits []int
 			for k := 0; k < 3; k++ {
 				x := float32(randomReal(r))
+				if s.Edge > 0 && r.Intn(3) == 0 {
+					x = float32(edgeReal(r, s.Edge > 1))
+				}
 				fr.V[c][k] = x
 				bits = append(bits, f32bits(x))
 			}
@@ -202,6 +234,7 @@ type swLine struct {
 	Rerr string `json:"rerr"`
 	Rd   StlObs `json:"rd"`
 	Note string `json:"note"`
+	Io   string `json:"io"`
 }
 
 type srLine struct {
@@ -215,16 +248,51 @@ type srLine struct {
 	Werr string `json:"werr"`
 	F2   SFile  `json:"f2"`
 	Note string `json:"note"`
+	Io   string `json:"io"`
+}
+
+// sbLine: the record-level API. gen -> (independent encoder) -> bytes = f ;
+// stl.Read -> bin ; stl.Write(bin) -> f2. Normals are logged as float32 bit
+// patterns here (recs[..].n of f, bin, f2): the records must come back exactly.
+type sbLine struct {
+	K    string `json:"k"`
+	Id   int    `json:"id"`
+	Lat  bool   `json:"lat"`
+	Gen  []GRec `json:"gen"`
+	F    SFile  `json:"f"`
+	Rerr string `json:"rerr"`
+	Bin  []SRec `json:"bin"`
+	Werr string `json:"werr"`
+	F2   SFile  `json:"f2"`
+	Note string `json:"note"`
+	Io   string `json:"io"`
 }
 
 func emptyFile() SFile { return SFile{Count: -1, Recs: []SRec{}} }
 func emptyObs() StlObs { return StlObs{Idx: []int{}, Pos: [][]int{}, Nrm: [][]int{}} }
 
-func stlRead(b []byte, enc Enc) (string, string, StlObs, *modeling.Mesh) {
+func ioName(c StlCase) string { return readerModeName(c.Io) + "/" + writerModeName(c.Wio) }
+
+// stlRead gives the bytes to stl.ReadMesh through the reader variant (RdFile:
+// stl.Load of a file holding them).
+func stlRead(b []byte, enc Enc, mode int, id int) (string, string, StlObs, *modeling.Mesh) {
 	var got *modeling.Mesh
 	msg, detail := guard(func() error {
 		var err error
-		got, err = stl.ReadMesh(bytes.NewReader(b))
+		if mode == RdFile {
+			d, derr := caseDir("stl", id)
+			if derr != nil {
+				infra(derr)
+			}
+			fp := filepath.Join(d, "in.stl")
+			if werr := os.WriteFile(fp, b, 0o644); werr != nil {
+				infra(werr)
+			}
+			got, err = stl.Load(fp)
+			_ = os.Remove(fp)
+		} else {
+			got, err = stl.ReadMesh(wrapReader(b, mode))
+		}
 		if err == nil && got == nil {
 			return fmt.Errorf("nil mesh without error")
 		}
@@ -241,23 +309,52 @@ func stlRead(b []byte, enc Enc) (string, string, StlObs, *modeling.Mesh) {
 	return "", "", rd, got
 }
 
-func stlWrite(m modeling.Mesh) (string, string, []byte) {
-	var buf bytes.Buffer
-	msg, detail := guard(func() error { return stl.WriteMesh(&buf, m) })
-	return msg, detail, buf.Bytes()
+// stlWrite hands the mesh to stl.WriteMesh with the writer variant (WrFile:
+// stl.Save to a file, whose bytes are then read).
+func stlWrite(m modeling.Mesh, mode int, id int) (string, string, []byte) {
+	var out []byte
+	msg, detail := guard(func() error {
+		if mode == WrFile {
+			d, derr := caseDir("stl", id)
+			if derr != nil {
+				infra(derr)
+			}
+			fp := filepath.Join(d, "out.stl")
+			if err := stl.Save(fp, m); err != nil {
+				return err
+			}
+			b, rerr := os.ReadFile(fp)
+			if rerr != nil {
+				infra(rerr)
+			}
+			_ = os.Remove(fp)
+			out = b
+			return nil
+		}
+		sk := newSink(mode)
+		if err := stl.WriteMesh(sk.W, m); err != nil {
+			return err
+		}
+		b, err := sk.Bytes()
+		out = b
+		return err
+	})
+	return msg, detail, out
 }
 
 func runSw(id int, c StlCase, keep string) swLine {
 	enc := Enc{Mode: c.Enc, Q: c.Q}
 	var m modeling.Mesh
+	nexp := 0
 	if c.Seeded != nil {
 		m = stlBuildSeeded(*c.Seeded, c.Qn)
+		nexp = c.Seeded.NExp
 	} else {
 		m = stlBuildLattice(*c.Mesh, c.Q, c.Qn)
 	}
-	ln := swLine{K: "sw", Id: id, Lat: c.Enc == "lat", Src: stlSrc(m, enc, c.Qn), F: emptyFile(), Rd: emptyObs()}
+	ln := swLine{K: "sw", Id: id, Lat: c.Enc == "lat", Src: stlSrc(m, enc, c.Qn, nexp), F: emptyFile(), Rd: emptyObs(), Io: ioName(c)}
 	var b []byte
-	ln.Werr, ln.Note, b = stlWrite(m)
+	ln.Werr, ln.Note, b = stlWrite(m, c.Wio, id)
 	if ln.Werr != "" {
 		return ln
 	}
@@ -265,48 +362,59 @@ func runSw(id int, c StlCase, keep string) swLine {
 		_ = os.WriteFile(fmt.Sprintf("%s/case%d.stl", keep, id), b, 0o644)
 	}
 	ln.F = ParseStl(b, enc)
-	ln.Rerr, ln.Note, ln.Rd, _ = stlRead(b, enc)
+	ln.Rerr, ln.Note, ln.Rd, _ = stlRead(b, enc, c.Io, id)
 	return ln
 }
 
-func runSr(id int, c StlCase, keep string) srLine {
-	enc := Enc{Mode: c.Enc, Q: c.Q}
-	ln := srLine{K: "sr", Id: id, Lat: c.Enc == "lat", Gen: c.Gen, F: emptyFile(), Rd: emptyObs(), F2: emptyFile()}
-	var recs []FRec
+// stlCaseRecs: the records of an "sr" / "sb" case as real numbers.
+func stlCaseRecs(c StlCase) ([]GRec, []FRec) {
 	if c.Seeded != nil {
-		ln.Gen, recs = stlSeededRecs(*c.Seeded)
-	} else {
-		for _, g := range c.Gen {
-			var fr FRec
-			for k := 0; k < 3; k++ {
-				fr.N[k] = float32(float64(g.N[k]) / float64(c.Qn))
-				for cc := 0; cc < 3; cc++ {
-					fr.V[cc][k] = float32(float64(g.V[cc][k]) / float64(c.Q))
-				}
+		return stlSeededRecs(*c.Seeded)
+	}
+	recs := []FRec{}
+	for _, g := range c.Gen {
+		var fr FRec
+		for k := 0; k < 3; k++ {
+			fr.N[k] = float32(float64(g.N[k]) / float64(c.Qn))
+			for cc := 0; cc < 3; cc++ {
+				fr.V[cc][k] = float32(float64(g.V[cc][k]) / float64(c.Q))
 			}
-			fr.A = uint16(g.A)
-			recs = append(recs, fr)
 		}
+		fr.A = uint16(g.A)
+		recs = append(recs, fr)
 	}
-	if ln.Gen == nil {
-		ln.Gen = []GRec{}
+	gen := c.Gen
+	if gen == nil {
+		gen = []GRec{}
 	}
+	return gen, recs
+}
+
+func stlTitle(id int) string {
 	title := fmt.Sprintf("verif case %d", id)
 	if id%3 == 0 { // a binary file whose header happens to start like an ASCII one is still binary STL
 		title = "solid " + title
 	}
-	b := EncodeStl(recs, title)
+	return title
+}
+
+func runSr(id int, c StlCase, keep string) srLine {
+	enc := Enc{Mode: c.Enc, Q: c.Q}
+	ln := srLine{K: "sr", Id: id, Lat: c.Enc == "lat", F: emptyFile(), Rd: emptyObs(), F2: emptyFile(), Io: ioName(c)}
+	var recs []FRec
+	ln.Gen, recs = stlCaseRecs(c)
+	b := EncodeStl(recs, stlTitle(id))
 	if keep != "" {
 		_ = os.WriteFile(fmt.Sprintf("%s/case%d.stl", keep, id), b, 0o644)
 	}
 	ln.F = ParseStl(b, enc)
 	var got *modeling.Mesh
-	ln.Rerr, ln.Note, ln.Rd, got = stlRead(b, enc)
+	ln.Rerr, ln.Note, ln.Rd, got = stlRead(b, enc, c.Io, id)
 	if ln.Rerr != "" {
 		return ln
 	}
 	var b2 []byte
-	ln.Werr, ln.Note, b2 = stlWrite(*got)
+	ln.Werr, ln.Note, b2 = stlWrite(*got, c.Wio, id)
 	if ln.Werr != "" {
 		return ln
 	}
@@ -314,6 +422,67 @@ func runSr(id int, c StlCase, keep string) srLine {
 		_ = os.WriteFile(fmt.Sprintf("%s/case%d.saved.stl", keep, id), b2, 0o644)
 	}
 	ln.F2 = ParseStl(b2, enc)
+	return ln
+}
+
+// binRecs projects what stl.Read returned the way the parser projects a file.
+func binRecs(bin *stl.Binary, enc Enc) []SRec {
+	out := []SRec{}
+	for _, t := range bin.Triangles {
+		rec := SRec{N: []int{f32bits(t.Normal.X), f32bits(t.Normal.Y), f32bits(t.Normal.Z)},
+			Nz: t.Normal.X == 0 && t.Normal.Y == 0 && t.Normal.Z == 0, V: [][]int{}, A: int(t.Attribute)}
+		for _, v := range []stl.Vec{t.Vertex1, t.Vertex2, t.Vertex3} {
+			rec.V = append(rec.V, enc.ObsVec(float64(v.X), float64(v.Y), float64(v.Z)))
+		}
+		out = append(out, rec)
+	}
+	return out
+}
+
+func runSb(id int, c StlCase, keep string) sbLine {
+	enc := Enc{Mode: c.Enc, Q: c.Q}
+	ln := sbLine{K: "sb", Id: id, Lat: c.Enc == "lat", F: emptyFile(), Bin: []SRec{}, F2: emptyFile(), Io: ioName(c)}
+	var recs []FRec
+	ln.Gen, recs = stlCaseRecs(c)
+	b := EncodeStl(recs, stlTitle(id))
+	if keep != "" {
+		_ = os.WriteFile(fmt.Sprintf("%s/case%d.stl", keep, id), b, 0o644)
+	}
+	ln.F = parseStl(b, enc, true)
+	mode := c.Io
+	if mode == RdFile { // the record level has no file API
+		mode = RdChunk
+	}
+	var bin *stl.Binary
+	ln.Rerr, ln.Note = guard(func() error {
+		var err error
+		bin, err = stl.Read(wrapReader(b, mode))
+		if err == nil && bin == nil {
+			return fmt.Errorf("nil result without error")
+		}
+		return err
+	})
+	if ln.Rerr != "" {
+		return ln
+	}
+	ln.Bin = binRecs(bin, enc)
+	var b2 []byte
+	ln.Werr, ln.Note = guard(func() error {
+		sk := newSink(c.Wio)
+		if err := stl.Write(sk.W, *bin); err != nil {
+			return err
+		}
+		var err error
+		b2, err = sk.Bytes()
+		return err
+	})
+	if ln.Werr != "" {
+		return ln
+	}
+	if keep != "" {
+		_ = os.WriteFile(fmt.Sprintf("%s/case%d.saved.stl", keep, id), b2, 0o644)
+	}
+	ln.F2 = parseStl(b2, enc, true)
 	return ln
 }
 
@@ -335,6 +504,7 @@ func RunStlCases(in, out, keep string) error {
 	sc := bufio.NewScanner(fi)
 	sc.Buffer(make([]byte, 1<<20), 1<<28)
 	id := 0
+	defer removeTmp()
 	for sc.Scan() {
 		if len(sc.Bytes()) == 0 {
 			continue
@@ -343,13 +513,21 @@ func RunStlCases(in, out, keep string) error {
 		if err := json.Unmarshal(sc.Bytes(), &c); err != nil {
 			return fmt.Errorf("case %d: %w", id, err)
 		}
+		cid := id
+		if c.Cid != nil { // what varies with the case number (titles, material file) is the same in a replay
+			cid = *c.Cid
+		}
 		switch c.K {
 		case "sw":
-			if err := encj.Encode(runSw(id, c, keep)); err != nil {
+			if err := encj.Encode(runSw(cid, c, keep)); err != nil {
 				return err
 			}
 		case "sr":
-			if err := encj.Encode(runSr(id, c, keep)); err != nil {
+			if err := encj.Encode(runSr(cid, c, keep)); err != nil {
+				return err
+			}
+		case "sb":
+			if err := encj.Encode(runSb(cid, c, keep)); err != nil {
 				return err
 			}
 		default:
@@ -360,8 +538,22 @@ func RunStlCases(in, out, keep string) error {
 	return sc.Err()
 }
 
-// GenStlRandom writes seeded "sw" and "sr" cases (sizes TLC does not enumerate).
-func GenStlRandom(out string, seed int64, nSw, nSr, maxTris int) error {
+// nexpTable: scales of the corner normals (2^e); the normalised mean does not
+// depend on the scale, float64 arithmetic has room for all of them.
+var nexpTable = []int{0, 0, 0, -100, 60, -60, 100, -20, 20}
+
+func edgeFor(i int) int {
+	switch i % 8 {
+	case 3, 5:
+		return 1
+	case 7:
+		return 2
+	}
+	return 0
+}
+
+// GenStlRandom writes seeded "sw", "sr" and "sb" cases (sizes TLC does not enumerate).
+func GenStlRandom(out string, seed int64, nSw, nSr, nSb, maxTris int) error {
 	fo, err := os.Create(out)
 	if err != nil {
 		return err
@@ -373,14 +565,19 @@ func GenStlRandom(out string, seed int64, nSw, nSr, maxTris int) error {
 	r := rand.New(rand.NewSource(seed))
 	for i := 0; i < nSw; i++ {
 		c := StlCase{K: "sw", Tag: "random", Enc: "f32", Q: 1, Qn: 4,
-			Seeded: &StlSeeded{Seed: seed*100003 + int64(i), NTris: r.Intn(maxTris + 1)}}
+			Seeded: &StlSeeded{Seed: seed*100003 + int64(i), NTris: r.Intn(maxTris + 1),
+				NExp: nexpTable[i%len(nexpTable)], Edge: edgeFor(i)}}
 		if err := enc.Encode(c); err != nil {
 			return err
 		}
 	}
-	for i := 0; i < nSr; i++ {
-		c := StlCase{K: "sr", Tag: "random", Enc: "f32", Q: 1, Qn: 60,
-			Seeded: &StlSeeded{Seed: seed*200003 + int64(i), NTris: r.Intn(maxTris + 1)}}
+	for i := 0; i < nSr+nSb; i++ {
+		k := "sr"
+		if i >= nSr {
+			k = "sb"
+		}
+		c := StlCase{K: k, Tag: "random", Enc: "f32", Q: 1, Qn: 60,
+			Seeded: &StlSeeded{Seed: seed*200003 + int64(i), NTris: r.Intn(maxTris + 1), Edge: edgeFor(i)}}
 		if err := enc.Encode(c); err != nil {
 			return err
 		}
